@@ -132,8 +132,12 @@ class Recorder:
 
     def names(self):
         out = []
+        def scalarish(x):
+            # what the model's `pyStr` renders: scalars and the two empty containers
+            return isinstance(x, (str, int, bool)) or x is None or x == [] or x == {}
+
         for _, m, c in self.events:
-            if isinstance(m, str) and (isinstance(c, (str, int, bool)) or c is None):
+            if isinstance(m, str) and scalarish(c):
                 out.append(m + "." + str(c))
             elif (m is None or isinstance(m, (int, bool))) and (isinstance(c, (str, int, bool)) or c is None):
                 out.append(str(m) + "." + str(c))
